@@ -42,6 +42,8 @@ func main() {
 		run.RunShard(ck, os.Args[3], i, n, os.Args[6])
 	case "racebody":
 		os.Exit(checks.RaceBody())
+	case "pristine":
+		os.Exit(checks.Pristine())
 	case "confirm":
 		ck := checks.All[os.Args[2]]
 		if ck == nil {
